@@ -374,11 +374,15 @@ def main():
         return ("url", h, p, ce, tuple(sorted(o)))
     paths2 = ["/cubeA/f1.nc.dap", "/cubeA/f2.nc.dap", "/cubeB/y1/g1.nc.dap", "/cubeB/y2/g2.nc.dap", "/cubeAB/f1.nc.dap", "/else/f.nc.dap"]
     ces2 = ["/time", "/lat", "/lon", "/lat2", "/temp", None]
-    for _ in range(150 if T == "quick" else 1500):
+    # every pair of paths with every constraint on one host first (the cross combinations of two datacubes included), then random pairs
+    fixed2 = [(pa_, pb_, ce_) for pa_ in paths2 for pb_ in paths2 for ce_ in ces2 if pa_ < pb_]
+    for it2_ in range(len(fixed2) + (150 if T == "quick" else 1500)):
         us = []
         for _k in range(2):
             h = rng.choice(["http://h1.org", "http://h2.org"])
             p2, ce, o = rng.choice(paths2), rng.choice(ces2), rng.choice(others)
+            if it2_ < len(fixed2):
+                h, p2, ce, o = "http://h1.org", fixed2[it2_][_k], fixed2[it2_][2], []
             q = list(o)
             if ce is not None:
                 q.insert(rng.randint(0, len(q)), "dap4.ce=" + ce)
